@@ -16,14 +16,18 @@ TRUSTED = [
     'harness generators and canonicalisation of histories/outputs (harness/props/C09.py, harness/impl/c09_taskq.py); '
     'harness/oracles/sorted_queue.py is used only to look for failing inputs',
 ]
-ASSUMES = ['priorities are Python ints or finite floats (no NaN, no infinities)',
-           'tasks are hashable with identity equality',
+ASSUMES = ['priorities are Python ints, bools, Fractions or finite floats (no NaN, no infinities), mutually comparable',
+           'tasks are hashable; two tasks are the same item iff they are equal (dict key semantics)',
            'single-threaded use of one queue',
            '__iter__ is consumed immediately (no mutation while iterating)']
 
 P6 = [['I', '0'], ['F', '0'], ['I', '1'], ['F', '1'], ['F', '1/2'], ['I', '2']]
 PWIDE = P6 + [['I', '-1'], ['F', '-1/2'], ['F', '3/4'], ['F', '5/2'], ['I', '7']]
-THEOREM_OF = {'order': 'pop_nondecreasing', 'fifo-on-ties': 'pop_fifo_on_ties', 'at-most-once': 'item_at_most_once',
+# zero / sign / type mixes: 0, 0.0, -0.0, False, True, Fraction; ties across int, float, bool, Fraction; negatives
+PZERO = [['I', '0'], ['F', '0'], ['Z', '0'], ['B', '0'], ['Q', '0'], ['B', '1'], ['I', '1'], ['F', '1'], ['Q', '1'],
+         ['Q', '1/2'], ['F', '1/2'], ['I', '-1'], ['F', '-1'], ['Q', '-1/2'], ['F', '-1/2']]
+THEOREM_OF = {'prio-identity': 'tq_refines_spec', 'bookkeeping': 'tq_inv_reachable', 'error-path': 'tq_inv_reachable',
+              'order': 'pop_nondecreasing', 'fifo-on-ties': 'pop_fifo_on_ties', 'at-most-once': 'item_at_most_once',
               're-add': 'readd_moves_to_new_time_as_latest', 'remove-frame': 'remove_frames_others',
               'empty': 'empty_iff_no_live', 'peek-small': 'peek_small_is_next_pop',
               'peek-large': 'peek_large_is_max_live', 'iter': 'iter_is_sorted_contents', 'other': 'tq_refines_spec'}
@@ -33,9 +37,9 @@ BODY = 'Eval vm_compute in bad_idx (fun c => case_ok c && spec_case_ok c) cases.
 
 
 # ---- generators (ctx.rng only) --------------------------------------------------------
-def gen_random(rng, n, prios, nt):
+def gen_random(rng, n, prios, nt, inner=False, q=None):
     """Weighted random history; the reference queue only steers the choice of task ids."""
-    q, ops = oracle.SortedListQueue(), []
+    q, ops = q or oracle.SortedListQueue(), []
     for _ in range(n):
         r, live = rng.random(), [x[2] for x in q.items]
         if r < 0.43:
@@ -47,9 +51,15 @@ def gen_random(rng, n, prios, nt):
         elif r < 0.78: op = ['peek', True]
         elif r < 0.86: op = ['peek', False]
         elif r < 0.92: op = ['empty']
-        elif r < 0.98: op = ['iter']
+        elif r < 0.95: op = ['iter']
+        elif r < 0.96 and not inner: op = rng.choice([['addbad', rng.choice(prios)], ['removebad']])   # unhashable task
+        elif r < 0.96: op = ['iter']
+        elif r < 0.98 and not inner:                                                     # modify while iterating
+            op = ['iterk', rng.choice([0, 1, 1, 2, 3]), gen_random(rng, rng.randint(1, 4), prios, nt, inner=True, q=q)]
+        elif r < 0.98: op = ['empty']
         else: op = ['clear']
-        oracle.ref_step(q, op)
+        if op[0] not in oracle.PYONLY:
+            oracle.ref_step(q, op)
         ops.append(op)
     return ops
 
@@ -96,7 +106,8 @@ FAMILIES = ['drain', 'tombstones', 'fifo', 'readd', 'malformed']
 
 
 def gen_case(rng, longmax):
-    prios = PWIDE if rng.random() < 0.10 else P6
+    r = rng.random()
+    prios = P6 if r < 0.5 else PWIDE if r < 0.7 else PZERO
     r = rng.random()
     if r < 0.30:
         ops = gen_family(rng, rng.choice(FAMILIES), prios)
@@ -104,7 +115,8 @@ def gen_case(rng, longmax):
         nt = rng.choice([2, 2, 3, 3, 4, 4, 6, 8])
         n = rng.randint(1, 12) if r < 0.70 else rng.randint(13, longmax)
         ops = gen_random(rng, n, prios, nt)
-    return {'ops': ops + [['iter'], ['empty']]}
+    kind = rng.choice(['obj', 'obj', 'obj', 'odd', 'odd', 'eq'])    # look-alike objects / falsy values / fresh equal tuples
+    return {'ops': ([['tasks', kind]] if kind != 'obj' else []) + ops + [['iter'], ['empty']]}
 
 
 def load_corpus():
@@ -127,7 +139,7 @@ def out_term(o):
         if o[0] == 'K': return 'RKeyError'
         if o[0] == 'B': return 'RBool %s' % cbool(o[1])
         if o[0] == 'T': return 'RItem %s %s' % (cq(Fraction(o[1])), cz(o[2]))
-        if o[0] == 'L': return 'RList [%s]' % '; '.join('(%s, %s)' % (cq(Fraction(p)), cz(t)) for p, t in o[1])
+        if o[0] == 'L': return 'RList [%s]' % '; '.join('(%s, %s)' % (cq(Fraction(x[0])), cz(x[1])) for x in o[1])
     except (ValueError, TypeError, ZeroDivisionError):
         pass
     return 'ROutOfFuel'          # never produced by the model: reported as a mismatch
@@ -135,14 +147,18 @@ def out_term(o):
 
 def case_term(ops, res):
     st = res['state'] if res['state'] is not None else [-1]
+    ops, outs, _, _ = oracle.flatten(ops, res['outs'])          # the model alphabet only
     return '(%s, %s, %s)' % (clist(ops, op_term) if ops else '(@nil op)',
-                             clist(res['outs'], out_term) if res['outs'] else '(@nil out)', clist(st, cz))
+                             clist(outs, out_term) if outs else '(@nil out)', clist(st, cz))
 
 
 # ---- shrinking ---------------------------------------------------------------------------
 def shrink(ops, fails_batch, rounds=16, max_cands=160):
     """Batched delta debugging.  fails_batch(list of histories) -> list of truthy/falsy;
     each round costs one batch (plus one for combining independent deletions)."""
+    flat = [o for o in ops if o[0] == 'tasks'] + oracle.flatten(ops, [])[0]      # first try without python-only ops
+    if flat != ops and flat and fails_batch([flat])[0]:
+        ops = flat
     size = max(1, len(ops) // 2)
     for _ in range(rounds):
         dels, s = [], size
@@ -183,6 +199,12 @@ def coq_disagrees(ctx, histories, results, name='shrink'):
 # ---- bookkeeping for the distribution -------------------------------------------------------
 def annotate(c, ops, outs):
     """Count op kinds using the reference queue and a tombstone ledger kept here."""
+    for op in ops:
+        if op[0] in oracle.PYONLY:
+            c.count('op:' + op[0] + (':' + op[1] if op[0] == 'tasks' else ''))
+        if op[0] == 'add' and op[1][0] not in 'IF':
+            c.count('prio:' + {'B': 'bool', 'Q': 'Fraction', 'Z': 'minus-zero'}[op[1][0]])
+    ops, outs, _, _ = oracle.flatten(ops, outs)
     q, tombs = oracle.SortedListQueue(), []
     for op, o in zip(ops, outs):
         k = op[0]
@@ -254,7 +276,7 @@ def indirect(ctx, c):
             latest = max([Fraction(0)] + [Fraction(t) for t, _ in spec['adds']])
             tail = str(max(Fraction(spec['tail']) + Fraction(r['now']), latest))
             ref = oracle.run_reference(ops + [['peek', False], ['add', ['F', tail], '/c_set'], ['iter']])
-            exp = {'latest': ref[-3][1:], 'list': ref[-1][1]}
+            exp = {'latest': ref[-3][1:3], 'list': [x[:2] for x in ref[-1][1]]}
         if 'error' in r or exp != {'latest': r['latest'], 'list': r['list']}:
             report('oscscore', 'OscScore entries came out as %s, expected %s for %s' % (
                 r, None if 'error' in r else exp, spec), {'spec': spec, 'observed': r})
@@ -265,7 +287,7 @@ def indirect(ctx, c):
 
 # ---- indirect users II: clock tasks, score from inside routines, Ppar (oracle = reference queue) ----
 TEMPI = ['1', '2', '1/2', '4', '1']
-DELTAS = ['0', '1/2', '1', '1', '1', '2', '3/2']
+DELTAS = ['0', 'i:0', 'z:0', '1/2', '1', 'i:1', '1', '2', 'i:2', '3/2']
 
 
 def gen_clock(rng, abort=False):
@@ -285,7 +307,7 @@ def gen_clock(rng, abort=False):
             else: out.append(['beats', rng.randrange(ncl), rng.choice(['0', '1/2', '1'])])
         return out
     for j in range(nt):
-        steps = [{'acts': acts(rng.choice([0, 0, 0, 1, 1, 2])), 'ret': rng.choice([None, None] + DELTAS)}
+        steps = [{'acts': acts(rng.choice([0, 0, 0, 1, 1, 2])), 'ret': rng.choice([None, None, 'raise', 'raiseB'] + DELTAS)}
                  for _ in range(rng.randint(1, 3))]
         tasks.append({'clock': home if rng.random() < 0.75 else rng.choice([-1] + list(range(ncl))),
                       'type': rng.choice('RRF'), 'steps': steps})
@@ -300,27 +322,33 @@ def gen_clock(rng, abort=False):
     return {'kind': 'clock', 'clocks': clocks, 'tasks': tasks, 'init': init, 'abort': abort}
 
 
-LATS = [None, '-1/2', '-1', '0', '0', '1/4', '1/2', '1/2', '1', '3/2']
+LATS = [None, '-1/2', '-1', 'i:-1', '0', 'i:0', 'z:0', '1/4', '1/2', '1/2', '1', 'i:1', '3/2']
 
 
 def gen_score(rng):
     nt = rng.randint(1, 4)
-    ident = iter(range(1, 1000))
+    fresh, used = iter(range(1, 1000)), []
+
+    def ident():                     # the same message (same list object) may be sent again, also at the same time
+        if used and rng.random() < 0.3:
+            return rng.choice(used)
+        used.append(next(fresh))
+        return used[-1]
     tasks = []
     for _ in range(nt):
-        tasks.append({'steps': [{'acts': [['bundle', rng.choice(LATS), next(ident)] for _ in range(rng.randint(0, 3))],
+        tasks.append({'steps': [{'acts': [['bundle', rng.choice(LATS), ident()] for _ in range(rng.randint(0, 3))],
                                  'ret': rng.choice([None, '1/2', '1/2', '1', '1', '3/2'])}
                                 for _ in range(rng.randint(1, 4))]})
     init = []
     for j in rng.sample(range(nt), nt):
         init.append(['play', j, rng.choice(['0', '1/2', '1', '1', '2'])])
     for _ in range(rng.randint(0, 2)):
-        init.insert(rng.randint(0, len(init)), ['bundle', rng.choice([None, '-1/2', '0', '1/2', '1', '2']), next(ident)])
-    return {'kind': 'score', 'tasks': tasks, 'init': init, 'tail': rng.choice(['0', '0', '1/2', '2'])}
+        init.insert(rng.randint(0, len(init)), ['bundle', rng.choice([None, '-1/2', '0', 'i:0', 'z:0', '1/2', '1', '2']), ident()])
+    return {'kind': 'score', 'tasks': tasks, 'init': init, 'tail': rng.choice(['0', 'i:0', '1/2', '2'])}
 
 
 def gen_ppar(rng):
-    return {'kind': 'ppar', 'streams': [[rng.choice(['1/2', '1/2', '1', '1', '3/2', '1/4']) for _ in range(rng.randint(1, 5))]
+    return {'kind': 'ppar', 'streams': [[rng.choice(['1/2', '1/2', '1', 'i:1', '3/2', '1/4', '0', 'i:0']) for _ in range(rng.randint(1, 5))]
                                         for _ in range(rng.randint(1, 5))]}
 
 
@@ -476,10 +504,15 @@ def correspond(ctx):
     cases += [gen_case(ctx.rng, longmax) for _ in range(ctx.n(400, 6000))]
     hist = [k['ops'] for k in cases]
     out = run_impl(ctx, hist)
+    mon = {}
     for ops, r in zip(hist, out):
         annotate(c, ops, r['outs'])
         if any(o[0] == 'T' for o in r['outs']) and any(op[0] == 'add' for op in ops):
             c.nontriv(ops)
+        v = oracle.monitor(ops, r)                 # tags, bookkeeping after every op, error paths, interleaved iteration
+        if v and (v[1] not in mon or len(ops) < len(mon[v[1]])):
+            mon[v[1]] = ops
+    c.failures.extend(report_monitor(ctx, mon))
     items = [case_term(h, r) for h, r in zip(hist, out)]
     bad, errs = fw.check_shards(ctx, 'hist', HEADER, items, BODY, shard=ctx.n(40, 100))
     c.evaluations = len(cases)
@@ -524,6 +557,24 @@ def correspond(ctx):
     return c
 
 
+# ---- monitor failures -> concrete inputs -------------------------------------------------------
+def report_monitor(ctx, viol):
+    found = []
+    for clause, ops in sorted(viol.items(), key=lambda kv: len(kv[1]))[:3]:
+        def fails(cands, clause=clause):
+            vs = [oracle.monitor(h, r) for h, r in zip(cands, run_impl(ctx, cands))]
+            return [bool(v) and v[1] == clause for v in vs]
+        ops = shrink(ops, fails)
+        res = run_impl(ctx, [ops])[0]
+        v = oracle.monitor(ops, res)
+        found.append(Failure('search', 'TaskQueue departs from a stable priority queue (clause %s): history %s; %s'
+                             % (clause, ops, v[2] if v else ''), signature='C09:' + clause,
+                             replay={'ops': ops, 'observed': res['outs'], 'probes': res.get('probes'),
+                                     'expected': oracle.run_reference(ops), 'how': HOW},
+                             found_input=True, theorem=THEOREM_OF.get(clause, 'tq_refines_spec')))
+    return found
+
+
 # ---- search (implementation against the independent reference) --------------------------------
 def boundary_histories():
     A = lambda p, t: ['add', p, t]
@@ -542,6 +593,16 @@ def boundary_histories():
         [A(I1, 0), A(I1, 1), ['clear'], A(I1, 1), A(I1, 0)] + tail,
         [A(I1, 0), A(I1, 1), ['pop'], A(I1, 0), A(I0, 2), ['remove', 2]] + tail,
     ]
+    Z, B0, B1, Q1, Qh = ['Z', '0'], ['B', '0'], ['B', '1'], ['Q', '1'], ['Q', '1/2']
+    for kind in ('odd', 'eq', 'obj'):
+        T = [['tasks', kind]]
+        hs += [
+            T + [A(I0, 0), A(F0, 1), A(Z, 2), A(B0, 3), A(I0, 0)] + tail + tail,      # all zeros tie; task id 0 re-added
+            T + [A(B1, 0), A(Q1, 1), A(F1, 2), A(I1, 3), ['remove', 0], A(Qh, 0)] + tail + tail,
+            T + [A(['I', '-1'], 0), A(Z, 0), A(['F', '-1'], 1), ['remove', 0], ['removebad'], ['addbad', I1]] + tail,
+            T + [A(I1, 0), A(I1, 1), A(I1, 2), ['iterk', 1, [['remove', 1], A(I0, 3), ['pop']]]] + tail,
+            T + [A(I1, 0), A(I1, 1), ['iterk', 0, [A(I1, 0), ['pop']]], ['clear'], A(I0, 0), A(I0, 0), ['pop']] + tail,
+        ]
     return hs
 
 
@@ -554,21 +615,10 @@ def search(ctx, failures):
     out = run_impl(ctx, hist)
     viol = {}
     for ops, r in zip(hist, out):
-        v = oracle.first_violation(ops, r['outs'])
+        v = oracle.monitor(ops, r)
         if v and (v[1] not in viol or len(ops) < len(viol[v[1]])):
             viol[v[1]] = ops
-    found = []
-    for clause, ops in sorted(viol.items(), key=lambda kv: len(kv[1]))[:3]:
-        def fails(cands, clause=clause):
-            vs = [oracle.first_violation(h, r['outs']) for h, r in zip(cands, run_impl(ctx, cands))]
-            return [bool(v) and v[1] == clause for v in vs]
-        ops = shrink(ops, fails)
-        obs = run_impl(ctx, [ops])[0]['outs']
-        v = oracle.first_violation(ops, obs)
-        found.append(Failure('search', 'TaskQueue departs from a stable priority queue (clause %s): history %s; %s'
-                             % (clause, ops, v[2] if v else ''), signature='C09:' + clause,
-                             replay={'ops': ops, 'observed': obs, 'expected': oracle.run_reference(ops), 'how': HOW},
-                             found_input=True, theorem=THEOREM_OF.get(clause, 'tq_refines_spec')))
+    found = report_monitor(ctx, viol)
     if not any((f.signature or '').startswith('C09:user-') for f in failures):
         found += check_users(ctx, None, ctx.n(300, 3000))
     return found
@@ -589,8 +639,10 @@ def replay(ctx, rp):
         print(json.dumps(rp, indent=1)); return 0
     r = run_impl(ctx, [ops])[0]
     exp = oracle.run_reference(ops)
-    for i, (op, a, b) in enumerate(zip(ops, r['outs'], exp)):
-        print('%3d %-28s impl=%-40s reference=%s%s' % (i, op, a, b, '' if a == b else '   <-- differs'))
+    fo, fr, fp, _ = oracle.flatten(ops, r['outs'], r.get('probes'))
+    for i, (op, a, b, pr) in enumerate(zip(fo, fr, exp, fp)):
+        print('%3d %-28s impl=%-44s reference=%s probe=%s%s' % (i, op, a, b, pr, '' if a == b else '   <-- differs'))
     print('final state:', r['state'])
-    print(oracle.check_property(ops, r['outs']) or 'implementation agrees with the reference')
-    return 1 if r['outs'] != exp else 0
+    v = oracle.monitor(ops, r)
+    print(v[2] if v else 'implementation agrees with the reference')
+    return 1 if v else 0
